@@ -114,6 +114,10 @@ func checkC03(c *Ctx) {
 	}
 	if c.runSemFamily("FamScope", cfg, o, 60*time.Minute) != nil {
 		c.traceValidate("scope", c.lastFile, 7, 1500)
+		// the same programs written on ONE line: every name of a program is then read "on line 1" (diagnostic lines are not compared)
+		keep := c.lastFile
+		st := c.replaySemFile(keep, &SemOpts{IgnoreLines: true, Render: &RenderOpts{OneLine: true}}, 0)
+		c.recordSem("FamScope/one-line", st)
 	}
 	c.genSlice(3, o)
 	c.cov("exhaustive", true)
@@ -300,7 +304,22 @@ func checkC17(c *Ctx) {
 	if bad != "" {
 		c.violation("C17|clock|value", "print clock();", map[string]interface{}{"mode": "cli", "src": src, "detail": bad})
 	}
-	c.addInt("traces_validated_against_impl", 1)
+	// the clock is read anew at every call, also at ONE call site evaluated again and again: a stopwatch helper drives a
+	// loop until 1.2 s have passed (a clock frozen per call site never leaves the loop)
+	{
+		f2 := filepath.Join(c.Work, "clock2.bn")
+		src2, _ := Render([]string{"K:fun", "I:now", "(", ")", "{", "K:return", "I:clock", "(", ")", ";", "}",
+			"L:2", "K:var", "I:a", "=", "I:now", "(", ")", ";", "L:3", "K:var", "I:n", "=", "N:0", ";",
+			"L:4", "K:while", "(", "I:now", "(", ")", "-", "I:a", "<", "N:12e-1", ")", "{", "I:n", "=", "I:n", "+", "N:1e0", ";", "}",
+			"L:5", "K:var", "I:b", "=", "I:now", "(", ")", ";", "L:6", "K:print", "I:b", "-", "I:a", ">=", "N:12e-1", ";", "L:7", "K:print", "I:b", "-", "I:a", "<", "N:1e1", ";", "L:8", "K:print", "I:n", ">", "N:0", ";"}, nil)
+		os.WriteFile(f2, []byte(src2), 0644)
+		r2 := c.runCLI([]string{f2}, "", 20*time.Second)
+		if r2.Killed || r2.Exit != 0 || r2.Out != "true\ntrue\ntrue\n" {
+			c.violation("C17|clock|advances", "stopwatch", map[string]interface{}{"mode": "cli", "src": src2,
+				"detail": fmt.Sprintf("a loop waiting for 1.2 s on the clock: killed after 20 s = %v, exit %d, output %q, stderr %q", r2.Killed, r2.Exit, r2.Out, clip(r2.Err, 100))})
+		}
+	}
+	c.addInt("traces_validated_against_impl", 2)
 	c.cov("exhaustive", true)
 	c.cov("rule", "FamMath: every built-in x 0..MaxArgs arguments x every combination of 8 argument kinds (pruned beyond arity+1); abs, sqrt, round, sin, cos, tan on 30 boundary values and NRandom seeded random doubles (abs, sqrt, round exactly; sin/cos within 4 ulp and tan within 8 ulp of fdlibm, exact at 0, NaN, Inf); pow on a 17x17 boundary grid, exact where every correct pow agrees and within 64 ulp otherwise, and pow(a,b) == a**b; min/max over all tuples of length <= 3 over 4 values (list and array form), signed zeros, empty and nested arrays; clock() against the harness clock")
 	semAssumptions(c)
